@@ -233,10 +233,10 @@ def jobs(tier):
     full = dict(optsN=(None, -2, 0, 1), optsM=(None, 1, 2))
     small = dict(optsN=(None, 0), optsM=(None, 1, 2))
     if tier == 'quick':
-        cfgs = [('single', -4, 4, True, full, (None, -2, 0, 1)), ('single+bystander', -3, 3, True, full, (None, -2, 0, 1)),
+        cfgs = [('single', -4, 4, True, full, (None, -2, 0, 1, 3)), ('single+bystander', -3, 3, True, full, (None, -2, 0, 1, 2)),
                 ('fwd+rev', -2, 2, False, small, (None, 0, -1)), ('two_on_path', -2, 2, False, small, (None, 0, -1))]
     else:
-        cfgs = [('single', -5, 5, True, full, (None, -2, 0, 1)), ('single+bystander', -4, 4, True, full, (None, -2, 0, 1)),
+        cfgs = [('single', -5, 5, True, full, (None, -2, 0, 1, 4, -4)), ('single+bystander', -4, 4, True, full, (None, -2, 0, 1, 3, -3)),
                 ('fwd+rev', -3, 3, False, full, (None, -2, 0, 1)), ('two_on_path', -3, 3, False, full, (None, -2, 0, 1)),
                 ('fwd+rev', -2, 2, True, small, (None, 0, -1))]
     for layout, a, b, tv, opts, n1s in cfgs:
